@@ -778,6 +778,8 @@ impl<'a> Gen<'a> {
                             opts.target = match old.as_str() {
                                 "sql.ansi" => "sql.generic".into(),
                                 "sql.generic" | "sql.any" => "sql.ansi".into(),
+                                "sql.redshift" => "sql.postgres".into(),
+                                _ if r.below(3) == 0 => "sql.redshift".into(),
                                 _ => r.pick(DIALECTS).to_string(),
                             };
                             if r.below(3) == 0 {
